@@ -177,6 +177,7 @@ type vSessLog struct {
 	lastEvent time.Time   // harness-internal pacing only (never logged, never judged)
 	changed   chan struct{} // closed and replaced whenever a line is added (see sess_ctl_test.go)
 	sealed    bool          // the "end" line is written: whatever a surviving goroutine does later is not part of the run
+	holdC     int           // connection whose OPEN reply the peer is holding back (0 = none)
 	armNext   int           // >0: the next accepted connection is dropped after this many UPDATEs
 	armRst    bool
 }
@@ -234,6 +235,8 @@ type vSessPeer struct {
 	conns     map[int]net.Conn
 	dropAfter map[int]int // connection -> drop when this many UPDATEs have been read (armed)
 	rst       bool        // drop with RST instead of FIN
+	holdNext  bool          // slow handshake: hold the reply to the next OPEN until release()
+	holdCh    chan struct{} // closed by release()
 	done      chan struct{}
 }
 
@@ -247,6 +250,7 @@ func vSessNewPeer(l *vSessLog, u *vSessUniverse, asn uint32, hold uint16) *vSess
 }
 
 func (p *vSessPeer) stop() {
+	p.release()
 	close(p.done)
 	p.ln.Close()
 	p.mu.Lock()
@@ -280,6 +284,28 @@ func (p *vSessPeer) acceptLoop() {
 		p.mu.Unlock()
 		go p.serve(k, c)
 	}
+}
+
+// armHold makes the peer read the session's OPEN on the next connection and then keep its own
+// OPEN back until release() - a slow handshake.
+func (p *vSessPeer) armHold() {
+	p.mu.Lock()
+	p.holdNext = true
+	if p.holdCh == nil {
+		p.holdCh = make(chan struct{})
+	}
+	p.mu.Unlock()
+}
+
+// release lets a held handshake go on (and disarms a hold that has not started yet).
+func (p *vSessPeer) release() {
+	p.mu.Lock()
+	p.holdNext = false
+	if p.holdCh != nil {
+		close(p.holdCh)
+		p.holdCh = nil
+	}
+	p.mu.Unlock()
 }
 
 func (p *vSessPeer) setWrong(n int) {
@@ -424,6 +450,27 @@ func (p *vSessPeer) serve(k int, c net.Conn) {
 	} else {
 		p.log.add("open", map[string]interface{}{"c": k, "asn16": int(binary.BigEndian.Uint16(body[1:3])),
 			"hold": int(binary.BigEndian.Uint16(body[3:5]))})
+	}
+	p.mu.Lock()
+	var hold chan struct{}
+	if p.holdNext {
+		p.holdNext = false
+		hold = p.holdCh
+	}
+	p.mu.Unlock()
+	if hold != nil {
+		p.log.mu.Lock()
+		p.log.holdC = k
+		p.log.addLocked("hold", map[string]interface{}{"c": k})
+		p.log.mu.Unlock()
+		select {
+		case <-hold:
+		case <-p.done:
+		}
+		p.log.mu.Lock()
+		p.log.holdC = 0
+		p.log.addLocked("release", map[string]interface{}{"c": k})
+		p.log.mu.Unlock()
 	}
 	p.mu.Lock()
 	wrong := p.wrong > 0
